@@ -6,7 +6,7 @@ from lib_flow import (strip_refs, expr_calls, expr_str, variant_facts, feasible_
 from lib_inter import returned_exprs
 from lib_drops import live_drops, owns, is_output_like
 from roles import roles, direct_sites, callee_body, reaches, RE_PIN_SET
-from c01 import _site_label, d_loc
+from c01 import _site_label, d_loc, group_loop_fns as c01_group_loop_fns
 import c07
 
 EXPLANATION = (
@@ -109,7 +109,16 @@ def r6_2(ctx, R, mus):
                 counts[api] = counts.get(api, 0) + 1
                 ok = False
                 det = ""
-                if api in ("forget", "Box::leak", "Vec::set_len", "Vec::from_raw_parts", "ManuallyDrop::take/into_inner"):
+                if api == "Vec::from_raw_parts":
+                    # re-owning a buffer that Box::into_raw has just disowned in the same function (Box<[T]> -> Vec<T>); the
+                    # lengths are C07 R7.2's obligation
+                    pe_ = strip_refs(fl.operand_expr(t["args"][0]))
+                    x_ = pe_
+                    while (x_[0] == "call" and re.search(r"<impl \*(mut|const) T>::cast(_mut|_const)?$", x_[1] or "") and x_[2]) or x_[0] == "cast":
+                        x_ = strip_refs(x_[2][0] if x_[0] == "call" else x_[2])
+                    ok = x_[0] == "call" and re.search(r"alloc::boxed::Box::<.*>::into_raw$", x_[1] or "") is not None
+                    det = "pointer = %s" % expr_str(pe_)[:160]
+                elif api in ("forget", "Box::leak", "Vec::set_len", "ManuallyDrop::take/into_inner"):
                     ok = False
                     det = "leak-capable API not in the table"
                 elif api == "ManuallyDrop::new":
@@ -129,6 +138,31 @@ def r6_2(ctx, R, mus):
                             adjacent = True
                     ok = bool(fr) and adjacent
                     det = "re-owned by from_raw in the next block: %s" % adjacent
+                    if not ok:
+                        # ... or by Vec::from_raw_parts of (a cast of) the same pointer, with nothing but pointer casts between
+                        frp = [(fb, ft) for fb, ft, ffn in direct_sites(b, r"alloc::vec::Vec::<.*>::from_raw_parts$")
+                               if any(c[3] == bb for c in expr_calls(fl.operand_expr(ft["args"][0])))]
+                        for fb, ft in frp:
+                            between = True
+                            x_ = bb
+                            for _ in range(6):
+                                nx = b.normal_succ(x_)
+                                if nx == [fb]:
+                                    break
+                                if len(nx) != 1:
+                                    between = False
+                                    break
+                                x_ = nx[0]
+                                tt_ = b.term(x_)
+                                if tt_["k"] == "call" and not (tt_["func"]["k"] == "const" and "fn" in tt_["func"] and re.search(
+                                        r"<impl \*(mut|const) T>::cast(_mut|_const)?$", tt_["func"]["fn"]["def"])):
+                                    between = False
+                                    break
+                            else:
+                                between = False
+                            if between:
+                                ok = True
+                                det = "re-owned by Vec::from_raw_parts of the same pointer (only pointer casts in between)"
                 elif api == "ptr::write":
                     a = t["args"][1]
                     ty = a["place"]["ty"] if a["k"] != "const" else a["ty"]
@@ -201,7 +235,7 @@ def r6_3(ctx, R):
         pan = [(bb, t) for bb, t, fn in b.calls() if fn and not b.is_cleanup(bb)
                and re.search(r"core::panicking::panic(_fmt|_display)?$", fn["def"]) and not t["span"]["x"] or
                (fn and not b.is_cleanup(bb) and re.search(r"core::panicking::panic_fmt$", fn["def"]))]
-        if not pan or not re.search(r"::push(_back|_front)?$", b.path):
+        if not pan or b is R.insert_fn:
             continue
         if not reaches(ctx.facts, b, re.escape(R.insert_fn.path) + "$", 4):
             continue          # not an accepting push (e.g. the ready-queue's own `push(index)`): nothing to refuse
@@ -281,7 +315,8 @@ def r6_4(ctx, R, mus):
                     if (t["k"] in ("param", "alias")) and any(x in ("core::mem::ManuallyDrop", "ptr", "core::ptr::NonNull") for x in c):
                         bad.append(("raw/ManuallyDrop", c))
                     if (t["k"] in ("param", "alias")) and "core::mem::MaybeUninit" in c:
-                        if not (path in mus and f["name"] in mus[path]):
+                        base_ = getattr(c07.mu_structs, "base", {})
+                        if not ((path in mus and f["name"] in mus[path]) or (path in base_ and f["name"] in base_[path])):
                             bad.append(("MaybeUninit", c))
                 ctx.facts.walk_type(f["ty"], visit)
                 n += 1
@@ -361,9 +396,18 @@ def r6_5(ctx, R):
             ty = p["ty"] if p else "?"
             ok = False
             why = ""
-            if p and re.search(GROUP_TYPES, ty):
+            removed_group = False
+            if p and not p["p"]:
+                src_ = strip_refs(fl.local_expr(p["l"]))
+                removed_group = src_[0] == "call" and re.search(r"alloc::vec::Vec::<.*>::(remove|swap_remove|pop)$", src_[1] or "") is not None and \
+                    b in c01_group_loop_fns(ctx)
+            if p and (re.search(GROUP_TYPES, ty) or removed_group):
                 fs = vf.get(bb, frozenset())
                 ok = any(v == "None" for (_, v) in fs) and any(v == "Ready" for (_, v) in fs)
+                if not ok:
+                    from lib_flow import arrival_knowledge
+                    ak = arrival_knowledge(b, fl, bb)
+                    ok = bool(ak) and all("None" in k_.values() and "Ready" in k_.values() for k_ in ak)
                 why = "group dropped under inner Ready(None): %s" % ok
             elif p and re.search(r"(IntoIter|Map<|Enumerate<|<I as core::iter::IntoIterator>::IntoIter|core::iter::)", ty):
                 ok = True
@@ -381,7 +425,7 @@ def r6_5(ctx, R):
                 tested = any(pb_ in reg for pb_, pt_, pf_ in b.calls() if pf_ and re.search(r"core::panicking::panic", pf_["def"]))
                 ok = ok and tested
                 why = "result of the try-variant in a panicking push (refused child dropped before the panic): %s" % ok
-            elif p and re.search(r"::push(_back|_front)?$", b.path) and bb in refusal_region(ctx, R, b, fl) and not _reaches_return(b, bb):
+            elif p and bb in refusal_region(ctx, R, b, fl) and not _reaches_return(b, bb):
                 # (d') the rejected child taken out of the Err payload and dropped on the refusal path, which only panics
                 ok = True
                 why = "refused child dropped on the refusal path of a panicking push (no return reachable)"
@@ -398,6 +442,33 @@ def r6_5(ctx, R):
             ordn = sum(1 for x in lds[:lds.index((bb, p, how))] if (x[1] or {}).get("ty") == ty)
             ctx.ob("R6.5", b, "drop:%s:%s#%d" % (how, ty.split("<")[0], ordn), ok, b.loc(bb), why + " place=" + (place_str(p) if p else "?"))
     ctx.floor("R6.5", "child-owning-drops-examined", n, 2)
+
+
+def _index_loop_next(ctx, b, fl, e, fields):
+    """The released element is `buffer[i]` with i the item of a `0..buffer.len()` range loop (index form of the whole-buffer
+    iteration): the Range `next` call (as an expression) or None."""
+    e = strip_refs(e)
+    if e[0] != "proj":
+        return None
+    fld = c07.field_of(e) or ""
+    if fld[1:] not in fields:
+        return None
+    for el in e[2]:
+        m = re.match(r"\[_(\d+)\]$", el)
+        if not m:
+            continue
+        ie = fl.local_expr(int(m.group(1)))
+        for c in expr_calls(ie):
+            if (c[1] or "").endswith("::next") and "Range" in (c[1] or ""):
+                it = strip_refs(c[2][0])
+                while it[0] == "call" and (it[1] or "").endswith("into_iter") and it[2]:
+                    it = strip_refs(it[2][0])
+                if it[0] == "agg" and it[1].endswith("Range::Range") and it[2][0][0] == "const" and it[2][0][2] == "0":
+                    hi = strip_refs(it[2][1])
+                    if hi[0] == "call" and re.search(r"core::slice::<impl \[T\]>::len$", hi[1] or "") and hi[2] and \
+                            (c07.field_of(strip_refs(hi[2][0])) or "")[1:] in fields:
+                        return c
+    return None
 
 
 def r6_6(ctx, R, mus):
@@ -444,6 +515,11 @@ def r6_6(ctx, R, mus):
                                         [c for c, _ in chain], expr_str(src), bad, vac)
                     ctx.ob("R6.6", b, "release-covers-whole-buffer(adaptor form)@%s" % _site_label(b, bb), ok, b.loc(bb), det)
                     continue
+                index_form = None
+                if not nexts:
+                    index_form = _index_loop_next(ctx, b, fl, e, fields)
+                    if index_form is not None:
+                        nexts = [index_form]
                 if not nexts:
                     ctx.ob("R6.6", b, "released-element-comes-from-an-iterator@%s" % _site_label(b, bb), False, b.loc(bb), expr_str(e))
                     continue
@@ -452,6 +528,9 @@ def r6_6(ctx, R, mus):
                 bad = [c for c, full in chain if c not in ADAPTORS_OK]
                 srcfield = c07.field_of(src) or ""
                 from_buf = srcfield[1:] in fields or any(re.search(c07.RE_REPLACE, c[1] or "") for c in expr_calls(src))
+                if index_form is not None:
+                    # `for i in 0..buffer.len() { .. buffer[i] .. }`: the index range covers the buffer by construction
+                    bad, from_buf = [], True
                 ctx.ob("R6.6", b, "iterates-whole-buffer@%s" % _site_label(b, bb), not bad and from_buf, b.loc(bb),
                        "chain %s over %s; truncating/unknown adaptors: %s" % ([c for c, _ in chain], expr_str(src), bad))
                 if "core::ops::Drop" not in b.path:
@@ -535,6 +614,19 @@ def r6_6(ctx, R, mus):
                         if cb is None:
                             continue
                         r_ = ctx.flow(cb).local_expr(0)
+                        if r_[0] == "multi":
+                            # `a && vacant(i)`: false on the short-circuit arm, the second operand otherwise -- the closure answers
+                            # true only where the vacancy test is true
+                            cfl_ = ctx.flow(cb)
+                            dvals = []
+                            for (db_, di_, dk_, dn_) in cfl_.defs.get(0, []):
+                                if dk_ == "assign":
+                                    dvals.append(cfl_.rvalue_expr(dn_["rv"], db_))
+                                elif dk_ == "call":
+                                    dvals.append(cfl_.call_expr(dn_, db_))
+                            nonconst = [d_ for d_ in dvals if not (d_[0] == "const" and d_[2] == "0")]
+                            if len(dvals) == 2 and len(nonconst) == 1:
+                                r_ = nonconst[0]
                         neg = False
                         while r_[0] == "unop" and r_[1] == "Not":
                             r_ = r_[2]
@@ -577,6 +669,9 @@ def r6_7(ctx, R, mus):
                     for c in expr_calls(e):
                         if (c[1] or "").endswith("::next"):
                             nxs.add(c[3])
+                    ix = _index_loop_next(ctx, b, fl, e, fields)
+                    if ix is not None:
+                        nxs.add(ix[3])
                 if not nxs:
                     ctx.ob("R6.7", b, "release-loop-present", False, d_loc(b), "no release loop found in the Drop impl (helpers inlined)")
                     continue
